@@ -34,6 +34,6 @@ def replay(path):
     import json
     if json.load(open(path))['replay'].get('module') == 'SubjectGen':
         return parts_subject.replay_case(PID, path)
-    if json.load(open(path))['replay'].get('module') in ('MultiGen', 'HOGen'):
+    if json.load(open(path))['replay'].get('module') in ('MultiGen', 'HOGen', 'MultiOddGen'):
         return parts_multi.replay_case(PID, path)
     return pp.replay_case(PID, path)
